@@ -747,4 +747,112 @@ theorem postPoll_frame (Q : Bytes → Bool) (C L : Nat → Prop) (d : Dev) (env 
 
 #print axioms postPoll_frame
 
+/-! ### `_process_setplugstate` / `_process_setresult` restated: first decide *whether and where* to write (this does not
+    look at the store or the oracle), then ask the oracle and write -/
+
+def spsTarget (d : Dev) (e : ExecCtx) (lit : Option Bytes) (plugMp statMp : Int) : Option (Bytes × Plug) :=
+  let plugName : Option Bytes := match lit with
+    | some n => some n
+    | none => match subOf d plugMp with
+      | some n => some n
+      | none => match e.plugs with
+        | some (p :: _) => some p.name
+        | _ => none
+  match plugName with
+  | none => none
+  | some pn =>
+    match subOf d statMp, findPlug d pn with
+    | some s, some plug => some (s, plug)
+    | _, _ => none
+
+def stmtSetplugstate' (d : Dev) (a : Action) (o : Oracle) (e : ExecCtx) (lit : Option Bytes) (plugMp statMp : Int) (interps : List (PState × Nat)) : StepR :=
+  if !d.xmUsed then ⟨d, a, o, [.abortAssert "xm_used"], true⟩ else
+  match spsTarget d e lit plugMp statMp with
+  | none => ⟨d, a, o, [], true⟩
+  | some (s, plug) =>
+    let q := pickState askRx s interps o []
+    ⟨setArgs d a.arglist ((getArgs d a.arglist).map fun g => if g.node == plug.node.getD [] then { g with state := q.2.1, val := some s } else g),
+     a, q.1, q.2.2, true⟩
+
+theorem stmtSetplugstate_eq (d a o e lit plugMp statMp interps) :
+    stmtSetplugstate d a o e lit plugMp statMp interps = stmtSetplugstate' d a o e lit plugMp statMp interps := by
+  unfold stmtSetplugstate stmtSetplugstate' spsTarget
+  split
+  · rfl
+  · rcases lit with _ | n
+    · rcases hsub : subOf d plugMp with _ | n
+      · rcases hp : e.plugs with _ | (_ | ⟨p, t⟩)
+        · rfl
+        · rfl
+        · dsimp only; cases subOf d statMp <;> cases findPlug d p.name <;> rfl
+      · dsimp only; cases subOf d statMp <;> cases findPlug d n <;> rfl
+    · dsimp only; cases subOf d statMp <;> cases findPlug d n <;> rfl
+
+def srTarget (d : Dev) (plugMp statMp : Int) : Option (Bytes × Plug) :=
+  match subOf d plugMp with
+  | none => none
+  | some pn =>
+    match subOf d statMp, findPlug d pn with
+    | some s, some plug => some (s, plug)
+    | _, _ => none
+
+def stmtSetresult' (d : Dev) (a : Action) (o : Oracle) (plugMp statMp : Int) (interps : List (PResult × Nat)) : StepR :=
+  if !d.xmUsed then ⟨d, a, o, [.abortAssert "xm_used"], true⟩ else
+  match srTarget d plugMp statMp with
+  | none => ⟨d, a, o, [], true⟩
+  | some (s, plug) =>
+    let q := pickResult askRx s interps o []
+    let node := plug.node.getD []
+    let found := (getArgs d a.arglist).any (·.node == node)
+    let dg := if found && q.2.1 != .success then
+        [Out.diag a.clientId (node ++ str ": " ++ (s.takeWhile fun b => b != 13 && b != 10).take 1023)] else []
+    ⟨setArgs d a.arglist ((getArgs d a.arglist).map fun g => if g.node == node then { g with result := q.2.1, val := some s } else g),
+     a, q.1, q.2.2 ++ dg, true⟩
+
+theorem stmtSetresult_eq (d a o plugMp statMp interps) :
+    stmtSetresult d a o plugMp statMp interps = stmtSetresult' d a o plugMp statMp interps := by
+  unfold stmtSetresult stmtSetresult' srTarget
+  split
+  · rfl
+  · cases subOf d plugMp with
+    | none => rfl
+    | some pn =>
+      dsimp only
+      cases subOf d statMp <;> cases findPlug d pn <;> rfl
+
+/-! ### `onRun` cut after the statement loop -/
+
+/-- the head action ran to the end of a statement without error: advance, and complete it if its script is over -/
+def onRunOk (k : CS → Oracle → List Out → Option Time → PA) (rest : List Action) (c : CS) (r : StepR) (out : List Out) (tmo : Option Time) : PA :=
+  let a' := advance r.act
+  if a'.exec.isEmpty then
+    let fin := if a'.clientId != 0 then [Out.finish a'.clientId .success] else []
+    let dev := { r.dev with acts := rest, loggedIn := r.dev.loggedIn || a'.com == 0, statActions := r.dev.statActions + 1 }
+    k { c with dev := dev } r.oracle (out ++ fin) tmo
+  else k { c with dev := { r.dev with acts := a' :: rest } } r.oracle out tmo
+
+/-- what `onRun` does with the result `r` of the statement loop -/
+def onRunTail (k : CS → Oracle → List Out → Option Time → PA) (rest : List Action) (c : CS) (r : StepR) (out0 : List Out)
+    (tmo : Option Time) (left : Time) : PA :=
+  let out := out0 ++ r.out
+  if hasAbort r.out then
+    ({ c with dev := { r.dev with acts := r.act :: rest }, aborted := true }, r.oracle, out, tmo) else
+  if !r.finished then ({ c with dev := { r.dev with acts := r.act :: rest } }, r.oracle, out,
+    upd (match r.dev.wake with | some w => upd tmo w | none => tmo) left)
+  else if r.act.errnum == .success then onRunOk k rest c r out tmo
+  else failAll rest { c with dev := r.dev } r.act r.oracle out tmo
+
+theorem onRun_eq (k rest c a o out tmo left) :
+    onRun k rest c a o out tmo left = onRunTail k rest c (innerLoop c.env.now 64 { c.dev with wake := none } a o []) out tmo left := rfl
+
+/-- the tail of one round of the `do … while` loop -/
+def innerStep (now : Time) (n : Nat) (a : Action) (acc : List Out) (q : StepR) : StepR :=
+  if q.finished && q.act.exec.length > a.exec.length then innerLoop now n q.dev q.act q.oracle (acc ++ q.out)
+  else { q with out := acc ++ q.out }
+
+theorem innerLoop_succ (now n d a o acc) : innerLoop now (n + 1) d a o acc = innerStep now n a acc (processStmt d a o now) := rfl
+
+theorem processStmt_plugs (d : Dev) (a : Action) (o : Oracle) (now : Time) : (processStmt d a o now).dev.plugs = d.plugs :=
+  (processStmt_frame (fun _ => false) d a o now (fun _ _ _ _ => rfl)).plugs
+
 end Pm.Dev2
